@@ -161,7 +161,9 @@ class FnCtx:
                 cname, node = self.lw.globals[rid]
                 self.lw.used_globals.add(cname)
                 return cname
-            name = ref.get('name')
+            name = ref.get('name') or self.lw.param_names.get(rid)
+            if name is None:
+                self.err(n, 'reference to an unnamed declaration')
             if rk == 'BindingDecl':
                 if rid in self.bindings:
                     return self.bindings[rid]
